@@ -853,8 +853,9 @@ pub fn simplify_solution(sol: &Value) -> Value {
                                 Some(loc) => sv["loc"] = loc["index"].clone(),
                                 None => sv["transit"] = json!(true),
                             }
-                            if s.get("parking").is_some() {
+                            if let Some(pk) = s.get("parking") {
                                 sv["parking"] = json!(true);
+                                sv["parkingTime"] = json!([time(&pk["start"]), time(&pk["end"])]);
                             }
                             sv
                         })
